@@ -68,5 +68,5 @@ CFG = dict(
              "sweeps. Raw setters outside their guards are not claimed. SplitOnUniqueMaterials panics (index out of range) on material ranges shorter than the triangle list: "
              "recovered by the harness and counted as a rejection (material ranges are outside WF). Defects found and fixed: filters on indexed meshes, Circle{Sides<3}, "
              "SliceByPlane on non-triangle meshes.",
-        technique="Lean 4 proof (closure of WF under operations and generators, omega arithmetic for all parameters) + exact index-list correspondence + compiled WF oracle on every returned mesh"),
+        technique="Lean 4 proof (closure of WF under operations and generators, omega arithmetic for all parameters) + exact index-list correspondence + compiled WF oracle on every returned mesh + model proved equal to definitions/facts regenerated from source on every run (engine F)"),
 )
